@@ -1,0 +1,134 @@
+//go:build verif
+
+package verifhook
+
+import (
+	"hash/fnv"
+	"math"
+	"reflect"
+	"sort"
+)
+
+// DeepHash returns an FNV-1a hash over the values reachable from vals
+// (pointers, slices, arrays, maps, structs incl. unexported fields, strings,
+// numbers).  It is used by the monitors to snapshot package-level tables at
+// quiescent points.  Function values and channels are hashed by address.
+func DeepHash(vals ...interface{}) uint64 {
+	h := fnv.New64a()
+	var buf [8]byte
+	put := func(u uint64) {
+		for i := 0; i < 8; i++ {
+			buf[i] = byte(u >> (8 * uint(i)))
+		}
+		h.Write(buf[:])
+	}
+	seen := map[uintptr]bool{}
+	var walk func(v reflect.Value)
+	walk = func(v reflect.Value) {
+		if !v.IsValid() {
+			put(0xDEAD)
+			return
+		}
+		put(uint64(v.Kind()))
+		switch v.Kind() {
+		case reflect.Bool:
+			if v.Bool() {
+				put(1)
+			} else {
+				put(0)
+			}
+		case reflect.Int, reflect.Int8, reflect.Int16, reflect.Int32, reflect.Int64:
+			put(uint64(v.Int()))
+		case reflect.Uint, reflect.Uint8, reflect.Uint16, reflect.Uint32, reflect.Uint64, reflect.Uintptr:
+			put(v.Uint())
+		case reflect.Float32, reflect.Float64:
+			put(math.Float64bits(v.Float()))
+		case reflect.String:
+			put(uint64(v.Len()))
+			h.Write([]byte(v.String()))
+		case reflect.Ptr:
+			if v.IsNil() {
+				put(0)
+				return
+			}
+			p := v.Pointer()
+			if seen[p] {
+				put(0xC1C1E)
+				return
+			}
+			seen[p] = true
+			walk(v.Elem())
+		case reflect.Interface:
+			if v.IsNil() {
+				put(0)
+				return
+			}
+			h.Write([]byte(v.Elem().Type().String()))
+			walk(v.Elem())
+		case reflect.Slice, reflect.Array:
+			put(uint64(v.Len()))
+			for i := 0; i < v.Len(); i++ {
+				walk(v.Index(i))
+			}
+		case reflect.Map:
+			put(uint64(v.Len()))
+			keys := v.MapKeys()
+			// order-independent: combine per-entry hashes of simple keys by sorting their string/int form
+			type kv struct {
+				k string
+				v reflect.Value
+			}
+			ents := make([]kv, 0, len(keys))
+			for _, k := range keys {
+				ks := ""
+				switch k.Kind() {
+				case reflect.String:
+					ks = "s" + k.String()
+				case reflect.Int, reflect.Int8, reflect.Int16, reflect.Int32, reflect.Int64:
+					ks = "i" + itoa(k.Int())
+				default:
+					ks = "?" + k.Type().String()
+				}
+				ents = append(ents, kv{ks, v.MapIndex(k)})
+			}
+			sort.Slice(ents, func(i, j int) bool { return ents[i].k < ents[j].k })
+			for _, e := range ents {
+				h.Write([]byte(e.k))
+				walk(e.v)
+			}
+		case reflect.Struct:
+			for i := 0; i < v.NumField(); i++ {
+				walk(v.Field(i))
+			}
+		case reflect.Func, reflect.Chan, reflect.UnsafePointer:
+			if v.IsNil() {
+				put(0)
+			} else {
+				put(uint64(v.Pointer()))
+			}
+		}
+	}
+	for _, x := range vals {
+		walk(reflect.ValueOf(x))
+	}
+	return h.Sum64()
+}
+
+func itoa(n int64) string {
+	neg := n < 0
+	if neg {
+		n = -n
+	}
+	if n == 0 {
+		return "0"
+	}
+	var b []byte
+	for n > 0 {
+		b = append([]byte{byte('0' + n%10)}, b...)
+		n /= 10
+	}
+	if neg {
+		b = append([]byte{'-'}, b...)
+	}
+	return string(b)
+}
